@@ -110,7 +110,7 @@ func semTraceCtx(c *Ctx, s *semSpec) error {
 		for n, v := range k.Parts {
 			env.parts[n] = decodeChars(v)
 		}
-		ctx := env.context(k.Data)
+		ctx := env.contextW(k.Data, k.Wrapped)
 		for _, src := range k.sources() {
 			renderObserved(src, ctx)
 		}
